@@ -470,6 +470,10 @@ func (env *Env) trCall(x ECall) TV {
 		// arr(s): the identity of the backing array of slice s (0 for a nil slice)
 		v := env.tr(args[0])
 		return TV{T: "(s-arr " + v.T + ")", S: "Int"}
+	case "off":
+		// off(s): the offset of slice s in its backing array
+		v := env.tr(args[0])
+		return TV{T: "(s-off " + v.T + ")", S: "Int"}
 	case "allocated":
 		v := env.tr(args[0])
 		return TV{T: fmt.Sprintf("(and (<= 0 %s) (<= %s %s))", v.T, v.T, env.st.get("$wm")), S: "Bool"}
